@@ -42,8 +42,10 @@ CORPUS = {
         down("LIST {r}", "after"), c("PASV"), down("MLSD {r}", "after"), c("DELE {r}/a"), c("RMD {r}"), c("QUIT")],
     "restart": LOGIN + [
         c("MKD {r}"), c("EPSV"), up("STOR {r}/a", PAY3), c("REST 100"), up("STOR {r}/a", PAY2), c("REST 2000"),
-        down("RETR {r}/a"), c("REST 5"), up("APPE {r}/a", PAY2), down("RETR {r}/a"), c("DELE {r}/a"), c("RMD {r}"),
-        c("QUIT")],
+        down("RETR {r}/a"), c("REST 5"), up("APPE {r}/a", PAY2), down("RETR {r}/a"),
+        # restart offsets aimed at files that do not exist
+        c("REST 5"), up("STOR {r}/never-existed", PAY2), c("REST 3"), up("APPE {r}/never-existed", PAY2), c("DELE {r}/never-existed"),
+        c("DELE {r}/a"), c("RMD {r}"), c("QUIT")],
     "errors": LOGIN + [
         c("CWD {r}/missing"), c("RMD {r}/missing"), c("DELE {r}/missing"), c("RNTO x"), c("FOO"), c("TYPE E"),
         c("LIST"), c("EPSV"), down("RETR {r}/missing"), c("MKD {r}"), c("MKD {r}"), down("LIST {r}", "never"),
